@@ -650,6 +650,10 @@ func (c *compiler) buildLA(useTransitions, stats bool) {
 			for is := len(states) - 1; is >= 0; is, i = is-1, i-1 {
 				curr, sym := states[is], c.right[i]
 				if sym < c.grammar.Terminals {
+					if useTransitions {
+						// LALR(k): the tokens following a trailing terminal come from the outer follow set.
+						g[gt] = append(g[gt], c.selectGoto(curr, Sym(sym)))
+					}
 					break
 				}
 				// Inner rule's goto inherits outer follow set.
